@@ -28,21 +28,31 @@ def handler_contract(cls, method, probes=None):
     mc = cls != "jacobian_materialize"
 
     def wrap(target):
-        def f(x, key, *, n_in, n_out, d):
+        def f(x, key, w, *, n_in, n_out, d, kw):
             import probdiffeq._probdiffeq.jacobians as J
 
             g = get_map(n_in, n_out, d)
             h = getattr(J, cls)(num_probes=probes) if mc else getattr(J, cls)()
             state = key if (mc and method != "materialize_dense") else (key if mc else ())
-            return target(h, lambda s: g(s), x, state)
+            if not kw:
+                return target(h, lambda s: g(s), x, state)
+
+            # the map has a keyword parameter whose default differs from the forwarded value: the handler has to
+            # evaluate and differentiate  s -> fun(s, **fun_kwargs),  not fun at its defaults
+            def fun(s, *, shift=0.0):
+                return g(s + shift)
+
+            return target(h, fun, x, state, shift=w)
 
         return f
 
-    def ensures(res, x, key, *, n_in, n_out, d):
+    def ensures(res, x, key, w, *, n_in, n_out, d, kw):
         import probdiffeq.backend.random as R
 
         g = get_map(n_in, n_out, d)
         fx, blk, state = res
+        if kw:
+            x = x + w  # value and Jacobian of s -> fun(s, shift=w) at x
         Jt = g.jac[0](x)  # (n_out, d, n_in, d)
         cl = [eq("value", fx, g(x))]
         if method == "materialize_dense":
@@ -84,12 +94,12 @@ def handler_contract(cls, method, probes=None):
         if tier == "thorough":
             fam += [(2, 2, 2), (3, 2, 2), (2, 3, 1), (3, 3, 2)]
         out = []
-        for n_in, n_out, d in fam:
-            def make(rng, n_in=n_in, n_out=n_out, d=d):
+        for n_in, n_out, d, kw in [(a, b, c, True) for a, b, c in fam] + [(2, 1, 2, False)]:
+            def make(rng, n_in=n_in, n_out=n_out, d=d, kw=kw):
                 import probdiffeq.backend.random as R
 
-                return (jnp.asarray(rng.normal(size=(n_in, d))), R.prng_key(seed=3)), {"n_in": n_in, "n_out": n_out, "d": d}
-            out.append(Instance(f"n_in={n_in},n_out={n_out},d={d}" + (f",probes={probes}" if mc else ""), make, names=lambda a, k: {id(a[0]): "x"}))
+                return (jnp.asarray(rng.normal(size=(n_in, d))), R.prng_key(seed=3), jnp.asarray(rng.normal(size=(n_in, d)))), {"n_in": n_in, "n_out": n_out, "d": d, "kw": kw}
+            out.append(Instance(f"n_in={n_in},n_out={n_out},d={d}" + (f",probes={probes}" if mc else "") + (",kwargs" if kw else ""), make, names=lambda a, k: {id(a[0]): "x", id(a[2]): "shift"}))
         return out
 
     tag = f"[probes={probes}]" if mc else ""
